@@ -62,7 +62,7 @@ class E:
     def free(self):
         if self.op == "v":
             return {self.args[0]}
-        if self.op == "c":
+        if self.op in ("c", "k"):
             return set()
         out = set()
         for a in self.args:
@@ -181,15 +181,37 @@ def absv(a):
     return fn("abs", a)
 
 
+PI = E("k", "pi")  # the symbolic constant pi (sympy.pi on FormaK's side; the double M_PI / numpy.pi in the specification)
+
+
+def maxv(a, b):
+    return E("max", wrap(a), wrap(b))
+
+
+def minv(a, b):
+    return E("min", wrap(a), wrap(b))
+
+
+def pw(c, a, b):
+    """a if c > 0 else b   (sympy: Piecewise((a, c > 0), (b, True)))."""
+    return E("pw", wrap(c), wrap(a), wrap(b))
+
+
 # ----------------------------------------------------------------------------- differentiation
 
 
 def diff(e: E, x: str) -> E:
     op = e.op
-    if op == "c":
+    if op in ("c", "k"):
         return C(0)
     if op == "v":
         return C(1) if e.args[0] == x else C(0)
+    if op == "pw":  # away from the switching surface c == 0 (callers exclude it)
+        return pw(e.args[0], diff(e.args[1], x), diff(e.args[2], x))
+    if op == "max":
+        return pw(add(e.args[0], neg(e.args[1])), diff(e.args[0], x), diff(e.args[1], x))
+    if op == "min":
+        return pw(add(e.args[0], neg(e.args[1])), diff(e.args[1], x), diff(e.args[0], x))
     if op == "+":
         return add(diff(e.args[0], x), diff(e.args[1], x))
     if op == "neg":
@@ -248,6 +270,14 @@ def to_sympy(e: E, symtab):
         return sympy.Float(v)
     if op == "v":
         return symtab[e.args[0]]
+    if op == "k":
+        return sympy.pi
+    if op == "max":
+        return sympy.Max(to_sympy(e.args[0], symtab), to_sympy(e.args[1], symtab))
+    if op == "min":
+        return sympy.Min(to_sympy(e.args[0], symtab), to_sympy(e.args[1], symtab))
+    if op == "pw":
+        return sympy.Piecewise((to_sympy(e.args[1], symtab), to_sympy(e.args[0], symtab) > 0), (to_sympy(e.args[2], symtab), True))
     if op == "+":
         return to_sympy(e.args[0], symtab) + to_sympy(e.args[1], symtab)
     if op == "neg":
@@ -271,6 +301,15 @@ def to_z3(e: E, env, denoms=None, domain=None):
         return qval(e.args[0])
     if op == "v":
         return env[e.args[0]]
+    if op == "k":
+        return qval(math.pi)
+    if op in ("max", "min", "pw"):
+        xs = [to_z3(a, env, denoms, domain) for a in e.args]
+        if op == "max":
+            return z3.If(xs[0] >= xs[1], xs[0], xs[1])
+        if op == "min":
+            return z3.If(xs[0] <= xs[1], xs[0], xs[1])
+        return z3.If(xs[0] > 0, xs[1], xs[2])
     if op == "+":
         return to_z3(e.args[0], env, denoms, domain) + to_z3(e.args[1], env, denoms, domain)
     if op == "neg":
@@ -313,6 +352,14 @@ def evalf(e: E, env):
         return float(e.args[0])
     if op == "v":
         return float(env[e.args[0]])
+    if op == "k":
+        return math.pi
+    if op == "max":
+        return max(evalf(e.args[0], env), evalf(e.args[1], env))
+    if op == "min":
+        return min(evalf(e.args[0], env), evalf(e.args[1], env))
+    if op == "pw":
+        return evalf(e.args[1], env) if evalf(e.args[0], env) > 0 else evalf(e.args[2], env)
     if op == "+":
         return evalf(e.args[0], env) + evalf(e.args[1], env)
     if op == "neg":
@@ -375,7 +422,7 @@ def subst_var(e: E, target: E, name: str) -> E:
     """Replace every occurrence (by object identity) of sub-expression `target` in e by the variable `name`."""
     if e is target:
         return V(name)
-    if e.op in ("c", "v"):
+    if e.op in ("c", "v", "k"):
         return e
     if e.op == "pow":
         return E("pow", subst_var(e.args[0], target, name), e.args[1])
